@@ -38,12 +38,17 @@ class Contract:
     self.always = list(kw.pop('always', ()))        # clauses checked on normal AND exceptional exit
     self.note = kw.pop('note', '')
     self.canary = kw.pop('canary', True)
+    self.variant = kw.pop('variant', '')            # distinguishes several contracts of one target
     if kw:
       raise TypeError(f'unknown contract keys {list(kw)}')
 
   @property
   def short(self):
     return self.target.split('::')[1]
+
+  @property
+  def key(self):
+    return self.target + (f'#{self.variant}' if self.variant else '')
 
 
 class Lemma:
